@@ -165,7 +165,8 @@ CLAIMED["C12"] = dict(
           "by ascending Rayleigh quotient, unknown config -> NotImplementedError). Orthonormality / ordering / diagonalisation follow only from the assumed LAPACK contracts; "
           "they and the fixed-point-up-to-sign clause are sampled natively (bounded stand-in)."),
     design_ref="DESIGN.md §4/C12",
-    note="LAPACK eigh/qr contracts assumed; QR iteration budget enumerated; numerics bounded only (sizes 1..16 quick / 64 thorough, repeated eigenvalues, both dtypes)",
+    note=("LAPACK eigh/qr contracts assumed; QR loop under a loop contract for every iteration budget; numerics bounded only (sizes 1..16 quick / 64 thorough, distinct / repeated / "
+          "singular spectra, both dtypes); known finding F12: on a singular PSD matrix an exact eigenbasis is not a fixed point of the QR method (reported as KNOWN-FINDING, exit 0)"),
     technique=E2 + " for control/data flow; bounded numeric sampling for the numerical clauses",
 )
 
